@@ -20,21 +20,21 @@ func (x *Explorer) execFrom(fr *frame, b *ssa.BasicBlock, i int) {
 			// phi not at block start (cannot happen)
 		case *ssa.Alloc:
 			x.allocN[v] = x.next()
-			fr.env[v] = x.T.mk(Term{Kind: KAlloc, Ref: v, N: x.allocN[v], Type: v.Type()})
+			x.setEnv(fr, v, x.T.mk(Term{Kind: KAlloc, Ref: v, N: x.allocN[v], Type: v.Type()}))
 		case *ssa.UnOp:
 			switch v.Op {
 			case token.MUL:
 				addr := x.eval(fr, v.X)
-				fr.env[v] = x.load(addr, v.Type())
+				x.setEnv(fr, v, x.load(addr, v.Type()))
 			case token.ARROW:
 				ch := x.eval(fr, v.X)
 				res := x.T.mk(Term{Kind: KOpaque, Ref: ssa.Value(v), N: x.next(), Type: v.Type()})
-				fr.env[v] = res
+				x.setEnv(fr, v, res)
 				if x.event(Event{Kind: EvRecv, Instr: in, Fn: fr.fn, Depth: fr.depth, Addr: ch, Result: res}) {
 					return
 				}
 			default:
-				fr.env[v] = x.pure(fr, in, false)
+				x.setEnv(fr, v, x.pure(fr, in, false))
 			}
 		case *ssa.Store:
 			addr, val := x.eval(fr, v.Addr), x.eval(fr, v.Val)
@@ -59,15 +59,15 @@ func (x *Explorer) execFrom(fr *frame, b *ssa.BasicBlock, i int) {
 				st = append(st, SelState{Chan: x.eval(fr, s.Chan), Send: s.Dir == types.SendOnly})
 			}
 			res := x.T.mk(Term{Kind: KOpaque, Ref: ssa.Value(v), N: x.next(), Type: v.Type()})
-			fr.env[v] = res
+			x.setEnv(fr, v, res)
 			if x.event(Event{Kind: EvSelect, Instr: in, Fn: fr.fn, Depth: fr.depth, States: st, Blocking: v.Blocking, Result: res}) {
 				return
 			}
 		case *ssa.Range, *ssa.Next, *ssa.MakeMap, *ssa.MakeChan:
 			val := in.(ssa.Value)
-			fr.env[val] = x.T.mk(Term{Kind: KOpaque, Ref: val, N: x.next(), Type: val.Type()})
+			x.setEnv(fr, val, x.T.mk(Term{Kind: KOpaque, Ref: val, N: x.next(), Type: val.Type()}))
 		case *ssa.MakeSlice:
-			fr.env[v] = x.T.mk(Term{Kind: KMake, Ref: ssa.Value(v), N: x.next(), Args: []*Term{x.eval(fr, v.Len), x.eval(fr, v.Cap)}, Type: v.Type()})
+			x.setEnv(fr, v, x.T.mk(Term{Kind: KMake, Ref: ssa.Value(v), N: x.next(), Args: []*Term{x.eval(fr, v.Len), x.eval(fr, v.Cap)}, Type: v.Type()}))
 		case *ssa.Defer:
 			ev := x.callEvent(fr, v, v.Common())
 			ev.Kind = EvDefer
@@ -139,7 +139,7 @@ func (x *Explorer) execFrom(fr *frame, b *ssa.BasicBlock, i int) {
 				if t == nil {
 					t = x.T.mk(Term{Kind: KOpaque, Ref: val, N: x.next(), Type: val.Type()})
 				}
-				fr.env[val] = t
+				x.setEnv(fr, val, t)
 			}
 		}
 	}
@@ -293,7 +293,7 @@ func (x *Explorer) call(fr *frame, v *ssa.Call, cont func()) {
 	ev := x.callEvent(fr, v, v.Common())
 	x.doCall(fr, v, ev, v, func(res *Term) {
 		if res != nil {
-			fr.env[v] = res
+			x.setEnv(fr, v, res)
 		}
 		cont()
 	})
